@@ -121,3 +121,8 @@ def run(ctx):
                       rule='parser side: batches through the real depccg.parsing.run with the real grammars and with synthetic grammars whose results for one pair of children carry pairwise different labels (same and different categories), unary tables with several distinctly-labelled results; reader side: licensed (and deliberately underivable) trees printed in auto/xml/ptb/jigg_xml and re-read; non-trivial = sentence longer than one token / file with a binary node; distinct by inputs',
                       assumptions=['when two results for the same children have the same category AND the chart keeps only the first popped item, either label is the label of "the result that created the node"; the oracle accepts any result with the node\'s category whose (label, symbol, head) triple matches',
                                    'the C&C XML reader keeps the label written in the file; the other readers re-derive it with guess_combinator_by_triplet'])
+
+
+def replay(data):
+    r, _ = glue_checks.replay(data, 'c12')
+    return r
